@@ -2,18 +2,18 @@ SPECIFICATION Spec
 CONSTANTS
   Seeds <- MCSeeds
   ScenariosOf <- MCScenariosOf
-  MaxRead = 2
+  MaxRead = 3
   KF_FastInvertSkipsStopLine = FALSE
   KF_ReaderByteCountIgnoresPartial = FALSE
   MaxLines = 5
   Bodies <- BodiesMX
   CtxMax = 2
-  Terms = {"lf"}
+  Terms = {"lf", "crlf"}
   Strats = {"reader", "slice"}
-  Paths = {"slow", "fast"}
-  Caps = {2}
+  Paths = {"slow", "fast", "cand"}
+  Caps = {1, 3}
   Flags = {"inv", "pass", "stopnm"}
   Bins = {"none"}
-  PlanKinds = {}
+  PlanKinds = {"stop", "err", "fault"}
 INVARIANTS BufInv ModelOK Emitted
 VIEW View
